@@ -8,6 +8,7 @@ import Proofs.Lemmas.C02Slots
 import Proofs.Lemmas.C02Inv
 import Proofs.Lemmas.C02Link
 import Zrnt.Beacon.Impl.Final
+import Proofs.Lemmas.C02Committee
 /-!
 # C02 — slot, epoch and fork-upgrade processing equals the consensus spec
 
@@ -1134,5 +1135,166 @@ example : ∃ (C N : Nat), Lemmas.Q exampleCfg C N (get_current_epoch exampleCfg
   simp only [List.mem_cons, List.not_mem_nil, or_false] at hv
   subst hv
   exact ⟨rfl, rfl, rfl, Or.inl rfl⟩
+
+/-! ## Committees: the LIVE epochs context instead of free "resolved indices"
+
+`rewards_phase0_eq`, `targetStakes_phase0_eq`, `processEpoch_eq` (phase0) and `upgrade_altair_eq` take the pending
+attestations resolved (`ResolvedAtt.indices`, `FlagAtt.indices`). The code resolves them by asking the live
+`*common.EpochsContext` (`epc.GetBeaconCommittee` + `FilterParticipants`: `Impl.resolveAttsCtx`,
+`Impl.resolveFlagAttsCtx` over C07's context model), the specification by `get_beacon_committee`. The theorems of
+this section prove the two routes equal, so that the theorems above hold with the committees the live context returns.
+
+`Lemmas.LiveHyps cfg s epc`: `epc` is the context `NewEpochsContext` builds from `s` (C08 `chain_ctx_invariant` /
+`live_ctx_answers_eq_zrnt_ctx`: the incrementally maintained context of a running chain answers the same), the configuration is sane (`CfgOK`, at most 255 shuffle rounds, at least
+one committee per slot allowed), at most 2^40 validators (`VALIDATOR_REGISTRY_LIMIT`).
+`Lemmas.PendingOK cfg s a`: what `process_attestation` checked of `a` when it was included (slot in an epoch the context
+covers, committee index below the committee count, one aggregation bit per member, head root still in the state). -/
+
+/-- **C02's `get_beacon_committee` is C07's `Spec.get_beacon_committee`** (the oracle of C07, about which C07 proves
+`ctx_committee_eq_spec`, `committees_partition`), on the registry and randao mixes of the same state. -/
+theorem committee_eq_C07 {cfg : Config} (hsrc : cfg.SHUFFLE_ROUND_COUNT ≤ 255)
+    {s : State} (hv : s.validators.length ≤ 2 ^ 40) {slot index : Nat} {m : List Nat}
+    (h : get_beacon_committee cfg s slot index = .ok m) :
+    Committees.Spec.get_beacon_committee Spec.hash (Ctx.cfgC cfg) (Zrnt.Proofs.Ctx.valsC s) (Zrnt.Proofs.Ctx.mixesC s) slot index = .ok m :=
+  Lemmas.get_beacon_committee_eq_C07 Lemmas.spec_hash_size hsrc hv h
+
+/-- **the committee the LIVE context returns (`epc.GetBeaconCommittee`) is the committee the specification computes**,
+and it has no repeated member, for every slot of the previous, current or next epoch and every committee index below
+the committee count -/
+theorem committee_live_eq {cfg : Config} {s : State} {epc : Committees.Ctx} (L : Lemmas.LiveHyps cfg s epc)
+    {slot index : Nat} {m : List Nat}
+    (he : compute_epoch_at_slot cfg slot = get_current_epoch cfg s - 1 ∨ compute_epoch_at_slot cfg slot = get_current_epoch cfg s ∨
+      compute_epoch_at_slot cfg slot = get_current_epoch cfg s + 1)
+    (hi : index < Committees.Spec.get_committee_count_per_slot (Ctx.cfgC cfg) (Zrnt.Proofs.Ctx.valsC s) (compute_epoch_at_slot cfg slot))
+    (h : get_beacon_committee cfg s slot index = .ok m) :
+    epc.getBeaconCommittee (Ctx.cfgC cfg) slot index = .ok m ∧ m.Nodup :=
+  Lemmas.get_beacon_committee_live Lemmas.spec_hash_size L.cfgOK L.rounds L.maxc L.vlen L.ctx he hi h
+
+/-- **phase0 attester data through the live context**: `phase0.ComputeEpochAttesterData` as the code runs it —
+`Impl.phase0AttesterData`: build/hold the epochs context, resolve the previous and the current epoch's pending
+attestations with `epc.GetBeaconCommittee` + `FilterParticipants`, fill the status array — returns the attester data of
+the attestations AS THE SPECIFICATION RESOLVES THEM (`resolve_attestations`: `get_attesting_indices` over
+`get_beacon_committee`). With `rewards_phase0_eq` / `targetStakes_phase0_eq` this gives those theorems for the
+committees the live context returns: see `rewards_phase0_live_eq`. -/
+theorem attesterData_phase0_live_eq {cfg : Config} {s : State} {epc : Committees.Ctx} (L : Lemmas.LiveHyps cfg s epc)
+    (hne : get_previous_epoch cfg s ≠ get_current_epoch cfg s)
+    (hokP : ∀ a ∈ s.previous_epoch_attestations, Lemmas.PendingOK cfg s a)
+    (hokC : ∀ a ∈ s.current_epoch_attestations, Lemmas.PendingOK cfg s a)
+    (hrootP : ∃ r, get_block_root cfg s (get_previous_epoch cfg s) = .ok r)
+    (hrootC : ∃ r, get_block_root cfg s (get_current_epoch cfg s) = .ok r)
+    {prevAtts currAtts : List ResolvedAtt}
+    (hp : resolve_attestations cfg s (get_previous_epoch cfg s) = .ok prevAtts)
+    (hc : resolve_attestations cfg s (get_current_epoch cfg s) = .ok currAtts) :
+    Impl.resolveAttsCtx cfg epc s (get_previous_epoch cfg s) s.previous_epoch_attestations = .ok prevAtts ∧
+    Impl.resolveAttsCtx cfg epc s (get_current_epoch cfg s) s.current_epoch_attestations = .ok currAtts ∧
+    Impl.phase0AttesterData cfg s =
+      .ok (Impl.computeEpochAttesterDataPhase0 cfg s.validators (get_previous_epoch cfg s) prevAtts currAtts) := by
+  have h1 := Lemmas.resolve_attestations_live L (get_previous_epoch cfg s) s.previous_epoch_attestations
+    (by rw [if_neg hne]) hokP hrootP hp
+  have h2 := Lemmas.resolve_attestations_live L (get_current_epoch cfg s) s.current_epoch_attestations
+    (by rw [if_pos rfl]) hokC hrootC hc
+  refine ⟨h1, h2, ?_⟩
+  unfold Impl.phase0AttesterData
+  rw [L.ctx]
+  simp only [Ctx.liftRes, bind, Except.bind, pure, Except.pure, h1, h2]
+
+/-- **`rewards_phase0_eq` with the committees the live context returns**: the balances the code computes from the
+attester data it builds through `epc.GetBeaconCommittee` are the specification's `process_rewards_and_penalties`
+balances, the specification resolving the attestations by `get_beacon_committee` — no free resolved-indices input. -/
+theorem rewards_phase0_live_eq {cfg : Config} {s : State} {epc : Committees.Ctx} (L : Lemmas.LiveHyps cfg s epc)
+    (hne : get_previous_epoch cfg s ≠ get_current_epoch cfg s)
+    (hokP : ∀ a ∈ s.previous_epoch_attestations, Lemmas.PendingOK cfg s a)
+    (hokC : ∀ a ∈ s.current_epoch_attestations, Lemmas.PendingOK cfg s a)
+    (hrootP : ∃ r, get_block_root cfg s (get_previous_epoch cfg s) = .ok r)
+    (hrootC : ∃ r, get_block_root cfg s (get_current_epoch cfg s) = .ok r)
+    {prevAtts currAtts : List ResolvedAtt}
+    (hp : resolve_attestations cfg s (get_previous_epoch cfg s) = .ok prevAtts)
+    (hc : resolve_attestations cfg s (get_current_epoch cfg s) = .ok currAtts)
+    (finalityDelay : Nat) (hlen : s.balances.length = s.validators.length) :
+    ∃ d, Impl.phase0AttesterData cfg s = .ok d ∧
+      Impl.processEpochRewardsAndPenaltiesPhase0 cfg s.validators d
+          (total_active_balance_of cfg s.validators (get_current_epoch cfg s)) finalityDelay cfg.INACTIVITY_PENALTY_QUOTIENT s.balances =
+        process_rewards_and_penalties_phase0_pure cfg s.validators s.balances (get_previous_epoch cfg s) (get_current_epoch cfg s)
+          finalityDelay (decide (finalityDelay > cfg.MIN_EPOCHS_TO_INACTIVITY_PENALTY)) prevAtts ∧
+      (d.prevTargetStake, d.currTargetStake) = target_balances_phase0_pure cfg s.validators prevAtts currAtts :=
+  ⟨_, (attesterData_phase0_live_eq L hne hokP hokC hrootP hrootC hp hc).2.2,
+    rewards_phase0_eq cfg s.validators _ _ prevAtts currAtts finalityDelay s.balances hlen,
+    targetStakes_phase0_eq cfg s.validators _ prevAtts currAtts⟩
+
+/-- **`processEpoch_eq` with the committees the live context returns**: zrnt's `ProcessEpoch` pipeline fed the pending
+attestations as the code resolves them (through `epc.GetBeaconCommittee`) equals the specification's `process_epoch`
+fed the attestations as the specification resolves them (`get_beacon_committee`). -/
+theorem processEpoch_live_eq {cfg : Config} {s : State} {epc : Committees.Ctx} (L : Lemmas.LiveHyps cfg s epc)
+    (hne : get_previous_epoch cfg s ≠ get_current_epoch cfg s)
+    (hokP : ∀ a ∈ s.previous_epoch_attestations, Lemmas.PendingOK cfg s a)
+    (hokC : ∀ a ∈ s.current_epoch_attestations, Lemmas.PendingOK cfg s a)
+    (hrootP : ∃ r, get_block_root cfg s (get_previous_epoch cfg s) = .ok r)
+    (hrootC : ∃ r, get_block_root cfg s (get_current_epoch cfg s) = .ok r)
+    (inp : EpochInputs)
+    (hp : resolve_attestations cfg s (get_previous_epoch cfg s) = .ok inp.prevAtts)
+    (hc : resolve_attestations cfg s (get_current_epoch cfg s) = .ok inp.currAtts)
+    (h : EpochWF cfg s) :
+    ∃ p c, Impl.resolveAttsCtx cfg epc s (get_previous_epoch cfg s) s.previous_epoch_attestations = .ok p ∧
+      Impl.resolveAttsCtx cfg epc s (get_current_epoch cfg s) s.current_epoch_attestations = .ok c ∧
+      Impl.processEpochPure cfg { inp with prevAtts := p, currAtts := c } s = process_epoch_pure cfg inp s := by
+  obtain ⟨h1, h2, _⟩ := attesterData_phase0_live_eq L hne hokP hokC hrootP hrootC hp hc
+  exact ⟨_, _, h1, h2, processEpoch_eq cfg inp s h⟩
+
+/-- **`upgrade_altair_eq` with the committees the live context returns**: `altair.TranslateParticipation` resolving the
+pre-state's pending attestations through the context of the PRE state (`epc.GetBeaconCommittee`) produces the
+participation the specification's `translate_participation` (over `get_attesting_indices(post, …)`) produces, hence
+the same altair state. `post` is the state `translate_participation` runs on. -/
+theorem upgrade_altair_live_eq {cfg : Config} {pre : State} {epc : Committees.Ctx} (L : Lemmas.LiveHyps cfg pre epc)
+    (hok : ∀ a ∈ pre.previous_epoch_attestations, Lemmas.PendingOK cfg (upgrade_to_altair_pure cfg ⟨[], none⟩ pre) a)
+    (hroots : ∀ a ∈ pre.previous_epoch_attestations,
+      ∃ r, get_block_root cfg (upgrade_to_altair_pure cfg ⟨[], none⟩ pre) a.data.target.epoch = .ok r)
+    {atts : List FlagAtt} (sc : Option SyncCommittee)
+    (h : resolve_flag_atts cfg (upgrade_to_altair_pure cfg ⟨[], none⟩ pre) pre.previous_epoch_attestations = .ok atts) :
+    Impl.resolveFlagAttsCtx cfg epc (upgrade_to_altair_pure cfg ⟨[], none⟩ pre) pre.previous_epoch_attestations = .ok atts ∧
+    Impl.upgradeToAltair cfg ⟨atts, sc⟩ pre = upgrade_to_altair_pure cfg ⟨atts, sc⟩ pre := by
+  have L' : Lemmas.LiveHyps cfg (upgrade_to_altair_pure cfg ⟨[], none⟩ pre) epc :=
+    { cfgOK := L.cfgOK, rounds := L.rounds, maxc := L.maxc, vlen := L.vlen, ctx := L.ctx }
+  exact ⟨Lemmas.resolve_flag_atts_live L' _ hok hroots h, upgrade_altair_eq cfg _ pre⟩
+
+/-- non-vacuity of the live-context theorems: a configuration with the committee constants of the "minimal" preset,
+a state in slot 1 with one active validator at the maximum effective balance -/
+def liveCfg : Config :=
+  let d : Config := default
+  { d with SLOTS_PER_EPOCH := 8, TARGET_COMMITTEE_SIZE := 4, MAX_COMMITTEES_PER_SLOT := 4, SHUFFLE_ROUND_COUNT := 10,
+           EPOCHS_PER_HISTORICAL_VECTOR := 64, MIN_SEED_LOOKAHEAD := 1, MAX_EFFECTIVE_BALANCE := 32, SLOTS_PER_HISTORICAL_ROOT := 8 }
+
+def liveState : State :=
+  let d : State := default
+  { d with slot := 1, validators := [⟨default, default, 32, false, 0, 0, FAR_FUTURE_EPOCH, FAR_FUTURE_EPOCH⟩], balances := [32],
+           block_roots := [ZERO32], randao_mixes := [ZERO32] }
+
+example : ∃ epc, Lemmas.LiveHyps liveCfg liveState epc := by
+  have ok : Zrnt.Proofs.Committees.CfgOK (Ctx.cfgC liveCfg) := ⟨by decide, by decide, by decide, by decide, by decide⟩
+  obtain ⟨epc, h⟩ := Zrnt.Proofs.C07.newEpochsContext_total (H := Spec.hash) Lemmas.spec_hash_size ok (by decide)
+    (Zrnt.Proofs.Ctx.valsC liveState).toArray (Zrnt.Proofs.Ctx.mixesC liveState) liveState.slot (by decide)
+    ⟨0, by decide, by decide, by decide⟩ (by decide)
+  exact ⟨epc, ok, by decide, by decide, by decide, h⟩
+
+
+/-- a pending attestation of slot 0, committee 0 (an empty committee: one validator spread over 8 committees) -/
+def liveAtt : PendingAttestation :=
+  let d : PendingAttestation := default
+  { d with aggregation_bits := [] }
+
+example : Lemmas.PendingOK liveCfg liveState liveAtt := by
+  refine ⟨Or.inr (Or.inl (by decide)), by decide, ?_, ⟨ZERO32, by decide⟩⟩
+  intro m hm
+  unfold get_beacon_committee at hm
+  obtain ⟨c, hc, hm⟩ := Lemmas.bind_ok _ _ _ hm
+  obtain ⟨seed, _, hm⟩ := Lemmas.bind_ok _ _ _ hm
+  have hc1 : c = 1 := by
+    have : get_committee_count_per_slot liveCfg liveState (compute_epoch_at_slot liveCfg liveAtt.data.slot) = .ok 1 := by decide
+    rw [this] at hc; injection hc with hc; exact hc.symm
+  subst hc1
+  have hl := Lemmas.compute_committee_length hm
+  have hn : (get_active_validator_indices liveState (compute_epoch_at_slot liveCfg liveAtt.data.slot)).length = 1 := by decide
+  rw [hn] at hl
+  rw [hl]
+  decide
 
 end Zrnt.Proofs.C02
